@@ -367,6 +367,12 @@ let rec fold_right f a0 = function
 | [] -> a0
 | b :: t -> f b (fold_right f a0 t)
 
+(** val existsb : ('a1 -> bool) -> 'a1 list -> bool **)
+
+let rec existsb f = function
+| [] -> false
+| a :: l0 -> (||) (f a) (existsb f l0)
+
 (** val forallb : ('a1 -> bool) -> 'a1 list -> bool **)
 
 let rec forallb f = function
@@ -1317,10 +1323,22 @@ let sep_pair nO tol x y =
   (||) (negb (nO.nre_ltb (nO.ndiv tol (nO.nofZ (Zpos (XO (XO XH))))) d))
     (negb (nO.nre_ltb d (nO.nmul (nO.nofZ (Zpos (XO XH))) tol)))
 
+(** val same_val : 'a1 numops -> 'a1 -> 'a1 -> bool **)
+
+let same_val nO x y =
+  (&&) (negb (nO.nre_ltb x y)) (negb (nO.nre_ltb y x))
+
+(** val dedup_vals : 'a1 numops -> 'a1 list -> 'a1 list **)
+
+let dedup_vals nO vals =
+  fold_left (fun acc x ->
+    if existsb (same_val nO x) acc then acc else x :: acc) vals []
+
 (** val separated_b : 'a1 numops -> 'a1 -> 'a1 list -> bool **)
 
 let separated_b nO tol vals =
-  forallb (fun x -> forallb (sep_pair nO tol x) vals) vals
+  let d = dedup_vals nO vals in
+  forallb (fun x -> forallb (sep_pair nO tol x) d) d
 
 (** val em_poles :
     'a1 numops -> bool -> bool -> int -> 'a1 emission -> 'a1 list **)
